@@ -370,6 +370,11 @@ func fxPeerList(n int) []string {
 // fxNewSUT writes the two files, loads them with config.NewConfig and starts a
 // SamplerFactory. mainYAML is the body of the main config file.
 func fxNewSUT(mainYAML, rulesYAML string, workers, peers int) (*fxSUT, error) {
+	return fxNewSUTOpts(mainYAML, rulesYAML, workers, peers, false)
+}
+
+// fxNewSUTOpts: with validate set, the loader's own validation of both files runs too (slow).
+func fxNewSUTOpts(mainYAML, rulesYAML string, workers, peers int, validate bool) (*fxSUT, error) {
 	dir, err := os.MkdirTemp("", "fx-case-")
 	if err != nil {
 		return nil, err
@@ -382,7 +387,11 @@ func fxNewSUT(mainYAML, rulesYAML string, workers, peers int) (*fxSUT, error) {
 	if err := os.WriteFile(s.rulesPath, []byte(rulesYAML), 0o644); err != nil {
 		return nil, err
 	}
-	opts, err := config.NewCmdEnvOptions([]string{"--no-validate", "--config", cfgPath, "--rules_config", s.rulesPath})
+	args := []string{"--config", cfgPath, "--rules_config", s.rulesPath}
+	if !validate {
+		args = append([]string{"--no-validate"}, args...)
+	}
+	opts, err := config.NewCmdEnvOptions(args)
 	if err != nil {
 		os.RemoveAll(dir)
 		return nil, err
